@@ -199,6 +199,23 @@ def gen_scenario(rng, mode=None, strategy=None, dry=None, big=False, answers_poo
     rng.shuffle(plan)
     if mode == "directory" and rng.random() < 0.7:
         plan.sort(key=lambda e: -len(e["rel"].split("/")))     # what PathDepthSorter would do (stable)
+    if mode == "path" and rng.random() < 0.06:
+        # F38's situation: x -> y is deferred (y exists) after every containment test said yes; y -> z moves y away; a
+        # symbolic link whose target '../out' is dangling where it stands (below a sub-directory of the input directory)
+        # is moved to y, where '../out' is the directory 'out' OUTSIDE the input directory; the retried x -> y is a
+        # conflict, and overriding it lets shutil.move follow the link.  The relative order of the three entries matters
+        # (they come last, in this order); the names are not in POOL
+        d = inputs[0]
+        up = "../" * (d.count("/") + 1)
+        spec += [(d + "/f38x", "f", "F38X"), (d + "/f38y", "f", "F38Y"), (d + "/f38d", "d", None),
+                 (d + "/f38d/lnk", "l", up + "out")]
+        if rng.random() < 0.5:
+            plan = []
+        plan += [{"dir": d, "spelled": d, "rel": "f38x", "r": ("text", "f38y")},
+                 {"dir": d, "spelled": d, "rel": "f38y", "r": ("text", rng.choice(["f38z", "f38d/z", "n1/f38z"]))},
+                 {"dir": d, "spelled": d, "rel": "f38d/lnk", "r": ("text", "f38y")}]
+        if rng.random() < 0.8:
+            strategy = "override"
     answers = []
     if strategy == "manual":
         pool = answers_pool or ["s", "St", "STOP", "i", "", "ig", "IGNORE", "o", "Over", "override", "c", "custom p",
@@ -209,7 +226,7 @@ def gen_scenario(rng, mode=None, strategy=None, dry=None, big=False, answers_poo
             if a and "custom path".startswith(a.lower()) and not "ignore".startswith(a.lower()) \
                     and not "stop".startswith(a.lower()) and not "override".startswith(a.lower()):
                 if rng.random() < 0.9:
-                    answers.append(rng.choice(POOL + ["n9", "sub/q", "../q", "a/n8", ""]))
+                    answers.append(rng.choice(POOL + ["n9", "sub/q", "../q", "a/n8", "", "k/../n7", "./n6", "x/./n5"]))
     return {"tree": spec, "inputs": inputs, "mode": mode, "strategy": strategy, "dry": dry,
             "answers": answers, "fault": None, "plan": plan, "variant": os.environ.get("VERIF_VARIANT", FIXED_VARIANT)}
 
@@ -392,17 +409,21 @@ def spec_fs(spec):
 VARIANTS = {
     "fixed": "fixed",
     "pre_f34": "pre_f34",        # the code before the repair of F34: no test on the directory of the destination entry
+    "pre_f38": "pre_f38",        # the code before the repair of F38: deferred renames are retried without the containment tests
     "prefix": ("{| v_lexists_guard := false; v_recheck_after_mkdir := false; v_backlog_chdir := false; "
-               "v_dry_abs_keys := false; v_component_containment := false; v_dest_parent_containment := false |}"),
+               "v_dry_abs_keys := false; v_component_containment := false; v_dest_parent_containment := false; "
+               "v_backlog_recheck := false |}"),
 }
 
 
 def q_variant(v):
     if isinstance(v, str):
         return VARIANTS.get(v, v)
-    v = tuple(v) + (True,) * (6 - len(v))          # five flags: a variant written before v_dest_parent_containment existed
+    # five / six flags: a variant written before v_dest_parent_containment (F34) / v_backlog_recheck (F38) existed
+    v = tuple(v) + (True,) * (7 - len(v))
     return ("{| v_lexists_guard := %s; v_recheck_after_mkdir := %s; v_backlog_chdir := %s; "
-            "v_dry_abs_keys := %s; v_component_containment := %s; v_dest_parent_containment := %s |}") % tuple(q_bool(x) for x in v)
+            "v_dry_abs_keys := %s; v_component_containment := %s; v_dest_parent_containment := %s; "
+            "v_backlog_recheck := %s |}") % tuple(q_bool(x) for x in v)
 
 
 def q_rendered(r):
